@@ -178,7 +178,7 @@ func optEq(a, b []byte) bool {
 
 // runHistory executes the operations; returns the Coq case, whether a hashed
 // child node and an inlined child node occurred, and the first oracle failure.
-func runHistory(h histIn, wantCoq bool) (coq string, ntbl int, oracle string) {
+func runHistory(h histIn, wantCoq bool, corrupt bool) (coq string, ntbl int, oracle string) {
 	fail := func(format string, a ...interface{}) {
 		if oracle == "" {
 			oracle = fmt.Sprintf(format, a...)
@@ -201,7 +201,12 @@ func runHistory(h histIn, wantCoq bool) (coq string, ntbl int, oracle string) {
 	// the reference map and with a trie rebuilt from it in random order
 	observe := func(s trie.Snapshot, what string) {
 		hv := s.Hash()
-		emit(fmt.Sprintf("ORoot %s %s", hxlib.CoqBytes(hv), hxlib.CoqBool(s.Empty())))
+		shown := hv
+		if corrupt && len(hv) > 0 {
+			shown = append([]byte(nil), hv...)
+			shown[len(shown)-1] ^= 1
+		}
+		emit(fmt.Sprintf("ORoot %s %s", tl.Bx(shown), hxlib.CoqBool(s.Empty())))
 		if s.Empty() != (len(ref) == 0) {
 			fail("%s: Empty()=%v with %d stored pairs", what, s.Empty(), len(ref))
 		}
@@ -226,7 +231,7 @@ func runHistory(h histIn, wantCoq bool) (coq string, ntbl int, oracle string) {
 			fail("%s: iterator error %v", what, err)
 		}
 		if isFilter {
-			emit(fmt.Sprintf("OFilter %s %s", hxlib.CoqBytes(prefix), tl.CoqKVs(got)))
+			emit(fmt.Sprintf("OFilter %s %s", tl.Bx(prefix), tl.CoqKVs(got)))
 		} else {
 			emit(fmt.Sprintf("OIter %s", tl.CoqKVs(got)))
 		}
@@ -245,7 +250,7 @@ func runHistory(h histIn, wantCoq bool) (coq string, ntbl int, oracle string) {
 			if err != nil {
 				fail("%s: error %v", what, err)
 			}
-			emit(fmt.Sprintf("OSet %s %s %s", hxlib.CoqBytes(k), hxlib.CoqBytes(v), tl.CoqOptBytes(old)))
+			emit(fmt.Sprintf("OSet %s %s %s", tl.Bx(k), tl.Bx(v), tl.CoqOptBytes(old)))
 			if !optEq(old, ref[string(k)]) {
 				fail("%s(%x): returned old value %x, last written %x", what, k, old, ref[string(k)])
 			}
@@ -259,7 +264,7 @@ func runHistory(h histIn, wantCoq bool) (coq string, ntbl int, oracle string) {
 			if err != nil {
 				fail("%s: error %v", what, err)
 			}
-			emit(fmt.Sprintf("ODel %s %s", hxlib.CoqBytes(k), tl.CoqOptBytes(old)))
+			emit(fmt.Sprintf("ODel %s %s", tl.Bx(k), tl.CoqOptBytes(old)))
 			if !optEq(old, ref[string(k)]) {
 				fail("%s(%x): returned old value %x, last written %x", what, k, old, ref[string(k)])
 			}
@@ -273,7 +278,7 @@ func runHistory(h histIn, wantCoq bool) (coq string, ntbl int, oracle string) {
 			if err != nil {
 				fail("%s: error %v", what, err)
 			}
-			emit(fmt.Sprintf("OGet %s %s", hxlib.CoqBytes(k), tl.CoqOptBytes(got)))
+			emit(fmt.Sprintf("OGet %s %s", tl.Bx(k), tl.CoqOptBytes(got)))
 			if !optEq(got, ref[string(k)]) {
 				fail("%s(%x): returned %x, last written %x", what, k, got, ref[string(k)])
 			}
@@ -391,7 +396,7 @@ func kvText(l []tl.KV) string {
 }
 
 func safeRun(h histIn, wantCoq bool) (coq string, ntbl int, oracle string) {
-	if p := hxlib.Catch(func() { coq, ntbl, oracle = runHistory(h, wantCoq) }); p != "" {
+	if p := hxlib.Catch(func() { coq, ntbl, oracle = runHistory(h, wantCoq, false) }); p != "" {
 		return "", 0, "panic in the trie implementation: " + p
 	}
 	return
@@ -399,7 +404,7 @@ func safeRun(h histIn, wantCoq bool) (coq string, ntbl int, oracle string) {
 
 func gen(c *hxlib.Ctx) {
 	_ = db.MerkleTrie
-	n := c.N(260)
+	n := c.N(200)
 	for i := 0; i < n; i++ {
 		r := c.Sub("hist", i)
 		h := genHistory(r)
@@ -421,8 +426,13 @@ func gen(c *hxlib.Ctx) {
 		Coq: "(CHist [] [OSet [1] [2] None; OGet [1] (Some [3])])"})
 	c.Emit(hxlib.Case{Kind: "canary", Canary: true,
 		Coq: "(CHist [] [OSet [1;2] [7] None; OSet [1;3] [8] None; OIter [([1;3],[8]); ([1;2],[7])]])"})
-	c.Emit(hxlib.Case{Kind: "canary", Canary: true,
-		Coq: "(CHist [] [OSet [1] [2] None; ORoot [] false])"})
+	if !c.OracleOnly {
+		// a true history with its true hash table, the observed root altered in one bit
+		ch := histIn{Seed: 7, Ops: []opIn{{T: "set", K: "1234", V: hx(bytes.Repeat([]byte{0xaa}, 40))},
+			{T: "set", K: "1256", V: hx(bytes.Repeat([]byte{0xbb}, 40))}, {T: "snap"}}}
+		coq, _, _ := runHistory(ch, true, true)
+		c.Emit(hxlib.Case{Kind: "canary", Canary: true, Coq: coq})
+	}
 }
 
 // leaves whose RLP is exactly 31/32/33/34 bytes below a branch, and a branch of
@@ -457,9 +467,10 @@ func replay(raw json.RawMessage) string {
 
 func main() {
 	hxlib.Main(hxlib.Spec{
-		ID: "C17",
-		Rule: "a case is one random history (8-48 operations: set/delete/get/snapshot/reset/flush/reload-from-hash/clone/clear-cache/iterate/filter) over 3-14 keys of length 0-4 bytes drawn from a 2-4 byte alphabet (shared prefixes) plus 32-byte keys differing in single nibbles, values of 1-70 bytes concentrated around the 32-byte inlining threshold; plus fixed histories placing leaf sizes 20..36 under a branch; non-trivial = the trie written to the database had at least two hashed nodes; distinct = distinct history",
-		Shard: 40,
-		Gen:   gen, Replay: replay,
+		ID:       "C17",
+		Rule:     "a case is one random history (8-48 operations: set/delete/get/snapshot/reset/flush/reload-from-hash/clone/clear-cache/iterate/filter) over 3-14 keys of length 0-4 bytes drawn from a 2-4 byte alphabet (shared prefixes) plus 32-byte keys differing in single nibbles, values of 1-70 bytes concentrated around the 32-byte inlining threshold; plus fixed histories placing leaf sizes 20..36 under a branch; non-trivial = the trie written to the database had at least two hashed nodes; distinct = distinct history",
+		Shard:    20,
+		Preamble: tl.Preamble("C17"),
+		Gen:      gen, Replay: replay,
 	})
 }
